@@ -384,6 +384,10 @@ def mutations(run: Run, d: dict, key, directed: bool = False):
         ("nb_events:2", lambda x: x.update(nb_events=2) if "nb_events" in x else 1 / 0),
         ("param:drop-one", lambda x: x["parameters"].pop(sorted(x["parameters"])[rng.randrange(len(x["parameters"]))])),
         ("param:drop-mixing", lambda x: x["parameters"].pop("mixing_matrix")),
+        # the parameters a mixing matrix derives from are edited by hand, the (redundant, "overwritten at loading") stored matrix is not
+        ("param:betas-edited-mixing-kept", lambda x: x["parameters"].update(
+            betas_mean=[[round(v + 0.375 * (1 + i + j), 6) for j, v in enumerate(row)] for i, row in enumerate(x["parameters"]["betas_mean"])])
+            if ("mixing_matrix" in x["parameters"] and x["parameters"].get("betas_mean")) else 1 / 0),
         ("param:unknown", lambda x: x["parameters"].update(foo=[1.0])),
         ("param:hyper-present", lambda x: x["parameters"].update(log_g_std=0.5) if "log_g_std" in x["hyperparameters"] else 1 / 0),
         ("param:wrong-numel", lambda x: x["parameters"].update(tau_mean=[70.0, 71.0, 72.0, 73.0, 74.0])),
@@ -1256,6 +1260,11 @@ def _check(run: Run, thorough: bool, version: str, tmp: Path):
                     obs = coq_result("err", ERR[r2])
                 load_cases.append(f"({coq_dict(d)}, {obs})")
                 load_meta.append(dict(spec=spec, edit=tag, settings=d, observed=("ok" if k2 == "ok" else r2)))
+                if k2 == "ok" and tag.startswith("param:") and tag != "param:float32-edge":
+                    # a model loaded from a hand-edited file is self-consistent too: what it reads (mixing matrix, velocities, ...) is
+                    # what a fresh state computes from the parameters it holds
+                    run.count("self-consistency-after-edited-load", tag)
+                    oracle_self_consistent(run, r2, dict(spec, edit=tag, settings=d), when=f"after loading a file with the hand edit {tag}")
                 if tag == "param:float32-edge":
                     run.count("r32-edge", "through-BaseModel.load:" + ("ok" if k2 == "ok" else r2), n_edge)
                     if k2 == "ok":
